@@ -276,7 +276,7 @@ func TestC08(t *testing.T) {
 		"condition, the summary graph has a path between the corresponding nodes; non-trivial = program with >= 5 chains of length >= 2; "+
 		"distinct = hash(program)")
 	rec.Assumptions = []string{"memory (loads, stores), cap, map lookups, range and select are not part of the demanded relation",
-		"the second half of the property (origins persist along the CFG) is exercised only indirectly, through the summaries built from the final state"}
+		"second sentence (closure under control-flow propagation): the final FlowInformation of every reachable function, obtained through the public post-block callback of dataflow.IntraProceduralAnalysis on a fresh analyzer state, must satisfy marks(i, v, path) within marks(j, v, path) for every CFG edge i->j between non-ignored instructions; field-sensitive for a quarter of the generated programs"}
 	defer rec.Flush()
 	replayKnown(t, "C08")
 	rapidSetup(env.Pick(1500, 15000), 8)
@@ -297,6 +297,30 @@ func TestC08(t *testing.T) {
 			return map[string]any{"program_from_first_function": core.Truncate(afterDecls(prog.Main), 40), "chains_checked": st.obligations, "chains_of_length_2_or_more": st.nontrivial}
 		})
 		rec.Count("chains_checked", st.obligations)
+		if msg == "" {
+			// second sentence of the property: closure of the final abstract state along the CFG
+			fs := rapid.IntRange(0, 3).Draw(rt, "c08b-field-sensitive") == 0
+			m2, st2, inc := c08bProgram(l, fs, false, analysisBudget())
+			if inc {
+				rec.Count("cfg_closure_inconclusive", 1)
+			}
+			rec.Count("cfg_closure_functions", st2.functions)
+			rec.Count("cfg_closure_edges", st2.edges)
+			rec.Count("cfg_closure_marks_checked", st2.marks)
+			rec.Count("cfg_closure_back_edges", st2.backEdges)
+			if fs {
+				rec.Count("cfg_closure_field_sensitive_programs", 1)
+			}
+			if m2 != "" {
+				sig := "cfg-closure"
+				if fs {
+					sig += "-fieldsens"
+				}
+				files2 := map[string]string{"main.go": prog.Main, "prelude.go": gogen.AnalysedPrelude}
+				m := env.Report(core.Violation{ID: "C08", Signature: sig, What: m2, Files: files2, Kind: "c08"})
+				rt.Fatalf("%s", m)
+			}
+		}
 		if msg != "" {
 			sig := "uncovered"
 			for _, k := range []string{"returned value", "argument #", "captured variable", "branch condition"} {
@@ -345,6 +369,17 @@ func TestC08(t *testing.T) {
 			return map[string]any{"testdata": name, "chains_checked": st.obligations}
 		})
 		rec.Count("chains_checked", st.obligations)
+		if msg == "" {
+			m2, st2, inc := c08bProgram(l, false, true, 5*time.Minute) // user-package functions only
+			if inc {
+				rec.Count("cfg_closure_inconclusive", 1)
+			}
+			rec.Count("cfg_closure_functions", st2.functions)
+			rec.Count("cfg_closure_edges", st2.edges)
+			rec.Count("cfg_closure_marks_checked", st2.marks)
+			rec.Count("cfg_closure_back_edges", st2.backEdges)
+			msg = m2
+		}
 		if msg != "" {
 			m := env.Report(core.Violation{ID: "C08", Signature: "testdata-uncovered", What: "testdata/" + name + ": " + msg,
 				Files: map[string]string{"testdata.txt": dir + "\n"}, Kind: "c08-testdata"})
@@ -372,6 +407,12 @@ func init() {
 			return ""
 		}
 		msg, _ := c08Program(nil, out.Result.State, false)
+		if msg == "" {
+			msg, _, _ = c08bProgram(l, false, false, 2*analysisBudget())
+		}
+		if msg == "" {
+			msg, _, _ = c08bProgram(l, true, false, 2*analysisBudget())
+		}
 		return msg
 	}
 	replayers["c08-testdata"] = func(dir string) string {
@@ -398,6 +439,9 @@ func init() {
 			return ""
 		}
 		msg, _ := c08Program(nil, out.Result.State, false)
+		if msg == "" {
+			msg, _, _ = c08bProgram(l, false, true, 10*time.Minute)
+		}
 		return msg
 	}
 }
